@@ -549,6 +549,254 @@ fn c01_gen_push_completion() {
     assert!(count_move_in(&v, i, d) <= 1, "C01: no push completion listed twice");
 }
 // ===========================================================================
+// The history oracle (DESIGN 4.4).  hash_history_contains_hash_twice is the only reader of
+// the history list.  Above the leaf it is replaced by TWICE: an uninterpreted boolean function
+// of the queried hash, realised lazily with a memo table (first query of a key picks a
+// nondeterministic answer, later queries of the same key repeat it).  A contract proved
+// against it holds for every history of every length.
+// ===========================================================================
+use crate::zobrist_values::{INITIAL, PLAYER_TO_MOVE, STEP_VALUES};
+pub static mut OR_K: [u64; 4] = [0; 4];
+pub static mut OR_V: [bool; 4] = [false; 4];
+pub static mut OR_N: usize = 0;
+pub fn twice(k: u64) -> bool {
+    unsafe {
+        let mut j = 0;
+        while j < 4 {
+            if j < OR_N && OR_K[j] == k {
+                return OR_V[j];
+            }
+            j += 1;
+        }
+        let v: bool = kani::any();
+        if OR_N < 4 {
+            OR_K[OR_N] = k;
+            OR_V[OR_N] = v;
+        }
+        OR_N += 1;
+        v
+    }
+}
+pub fn twice_oracle(_history: &List<Zobrist>, h: &Zobrist) -> bool {
+    twice(raw(h))
+}
+pub fn oracle_reset() {
+    unsafe {
+        OR_N = 0;
+    }
+}
+pub fn oracle_ok() -> bool {
+    unsafe { OR_N <= 4 }
+}
+
+// @obl props=C01,C05,C06,C07,C19 tier=quick kind=harness-contract mem=3 est=20
+// @fns GameState::can_pass Zobrist::pass Zobrist::exclude_step PushPullState::is_must_complete_push
+// @clause forall board, side, step 0..3, status, hash, initial hash, oracle: can_pass(false) <=> step >= 1 && no push pending; can_pass(true) <=> that && exclude_step(hash) != initial_hash_of_move && !TWICE(pass(hash)) where exclude_step/pass are hash ^ STEP[step] ^ STEP[0] (^ PLAYER_TO_MOVE); false in setup
+#[kani::proof]
+#[kani::unwind(6)]
+#[kani::stub(crate::engine::hash_history_contains_hash_twice, twice_oracle)]
+fn c06_can_pass() {
+    let side: bool = kani::any();
+    let pb = any_wf_board();
+    let step: usize = kani::any();
+    kani::assume(step <= 3);
+    let st = any_status();
+    let (hash, init): (u64, u64) = (kani::any(), kani::any());
+    let gs = play_state_h(&pb, side, step, st, kani::any(), hash, init, 2);
+    oracle_reset();
+    kani::cover!(step == 0);
+    kani::cover!(step == 3 && matches!(st, PushPullState::PossiblePull(_, _)));
+    let pending = matches!(st, PushPullState::MustCompletePush(_, _));
+    let rules_only = step >= 1 && !pending;
+    assert!(gs.can_pass(false) == rules_only, "C01/C07: can_pass(false) <=> a step was made and no push is pending");
+    let h0_same_side = hash ^ STEP_VALUES[step] ^ STEP_VALUES[0];
+    let h0_other_side = h0_same_side ^ PLAYER_TO_MOVE;
+    let got = gs.can_pass(true);
+    let want = rules_only && h0_same_side != init && !twice(h0_other_side);
+    assert!(got == want, "C06: can_pass(true) <=> allowed by the rules, board differs from the turn start (hash), and not a third occurrence (oracle)");
+    assert!(oracle_ok());
+    let setup = GameState::new(side, 1, Phase::PlacePhase, PieceBoard(pb.clone()), zob(hash));
+    assert!(!setup.can_pass(false) && !setup.can_pass(true), "C07: no pass in setup");
+}
+
+// ===========================================================================
+// C12  next_push_pull_state / move_can_be_counted_as_pull
+// ===========================================================================
+// @obl props=C12,C01,C19 tier=quick kind=harness-contract mem=4 est=60
+// @fns GameState::next_push_pull_state GameState::move_can_be_counted_as_pull GameState::is_their_piece piece_type_at_bit shift_in_direction
+// @clause requires board_wf, wf_status, Move(i,d) offered by the rules (offered_move), step 0..2. ensures status' == next_pp: enemy displaced and not completing a pull -> MustCompletePush(i, type); own non-rabbit stepped and not completing a push -> PossiblePull(i, type); else None
+#[kani::proof]
+#[kani::unwind(6)]
+fn c12_next_status() {
+    let side: bool = kani::any();
+    let pb = any_wf_board();
+    let step: usize = kani::any();
+    kani::assume(step <= 2);
+    let st = any_status();
+    let pp = pp_of(st);
+    kani::assume(wf_status(&pb, side, step, pp));
+    let i = any_sq();
+    let d = any_direction();
+    kani::assume(offered_move(&pb, side, step, pp, i, d));
+    let gs = play_state(&pb, side, step, st);
+    kani::cover!(matches!(next_pp(&pb, side, pp, i, d), Pp::Push(_, _)));
+    kani::cover!(matches!(next_pp(&pb, side, pp, i, d), Pp::Pull(_, _)));
+    kani::cover!(matches!(pp, Pp::Pull(_, _)) && matches!(next_pp(&pb, side, pp, i, d), Pp::None));
+    let r = gs.next_push_pull_state(&sq(i), &d);
+    assert!(pp_of(r) == next_pp(&pb, side, pp, i, d), "C12: reported status describes the step just made");
+}
+// @obl props=C12,C01,C19 tier=quick kind=harness-contract mem=4 est=120
+// @fns PieceBoard::take_action GameState::next_push_pull_state
+// @clause invariant preservation (heap-free): legal_board, wf_status, Move(i,d) offered by the rules, step 0..2 ==> after the step the status invariant holds again on the new board: PossiblePull(s,p) => s empty, p not a rabbit; MustCompletePush(s,p) => s empty, p not an elephant, and an unfrozen strictly stronger piece of the mover is adjacent to s (so the push can be completed: continuability); the new board is legal
+#[kani::proof]
+fn c12_status_invariant() {
+    let side: bool = kani::any();
+    let pb = any_legal_board();
+    let step: usize = kani::any();
+    kani::assume(step <= 2);
+    let pp = pp_of(any_status());
+    kani::assume(wf_status(&pb, side, step, pp));
+    kani::assume(step > 0 || pp == Pp::None);
+    let i = any_sq();
+    let d = any_direction();
+    kani::assume(offered_move(&pb, side, step, pp, i, d));
+    kani::cover!(matches!(next_pp(&pb, side, pp, i, d), Pp::Push(_, _)));
+    kani::cover!(matches!(next_pp(&pb, side, pp, i, d), Pp::Pull(_, _)));
+    let (nb, _) = PieceBoard(pb.clone()).take_action(&mv(i, d));
+    assert!(wf_status(&nb, side, step + 1, next_pp(&pb, side, pp, i, d)), "C12/C01: status invariant preserved; a pending push always has a completion");
+    assert!(legal_board(&nb), "C10: legal position preserved");
+}
+// ===========================================================================
+// Layer 5: transitions.  GameState::take_action(Move) / (Pass), one obligation per step case
+// (the per-turn record then has a concrete length).  The Zobrist board delta is a ghost value
+// here (piece_board_value is stubbed; its own contract == Hb(prev) ^ Hb(new) is a Verus
+// obligation, verus/pbv.spec), so the hash is checked in difference form.
+// ===========================================================================
+pub static mut PBV: u64 = 0;
+pub fn pbv_ghost(_a: &PieceBoardState, _b: &PieceBoardState) -> u64 {
+    unsafe { PBV }
+}
+/// a history list of symbolic length 0..2 (built with the real List API)
+pub fn any_short_history() -> (List<Zobrist>, usize, u64) {
+    let n: u8 = kani::any();
+    kani::assume(n <= 2);
+    let (a, b): (u64, u64) = (kani::any(), kani::any());
+    match n {
+        0 => (List::new(), 0, 0),
+        1 => (List::new().append(zob(a)), 1, a),
+        _ => (List::new().append(zob(b)).append(zob(a)), 2, a),
+    }
+}
+
+fn step_transition(step: usize) {
+    let side: bool = kani::any();
+    let pb = any_wf_board();
+    let st = any_status();
+    kani::assume(step > 0 || matches!(st, PushPullState::None));
+    let i = any_sq();
+    let d = any_direction();
+    let (hash, init, mn): (u64, u64, usize) = (kani::any(), kani::any(), kani::any());
+    kani::assume(mn < usize::MAX); // machine range of the move counter: known finding D4 (obligation c03_move_number_range)
+    let trapped: bool = kani::any();
+    let (hist, hist_len, hist_head) = any_short_history();
+    let prev = prev_boards(step);
+    let prev_copy: Vec<PieceBoardState> = prev.iter().map(|b| b.0.clone()).collect();
+    let pbv: u64 = kani::any();
+    unsafe {
+        PBV = pbv;
+    }
+    let playphase = PlayPhase::new(zob(init), hist, prev, st, trapped);
+    let gs = GameState::new(side, mn, Phase::PlayPhase(playphase), PieceBoard(pb.clone()), zob(hash));
+    // what the callees (each under its own contract) return on the old state
+    let (want_board, captured) = PieceBoard(pb.clone()).take_action(&mv(i, d)); // contract: c02_pb_take_action
+    let want_status = gs.next_push_pull_state(&sq(i), &d); // contract: c12_next_status
+    kani::cover!(captured, "a capturing step");
+    kani::cover!(!captured, "a non-capturing step");
+
+    let ns = gs.take_action(&mv(i, d));
+
+    // C02 (lifted): the new board is PieceBoard::take_action's result
+    assert!(same_board(ns.piece_board(), &want_board), "C02: the state's new board is the result of applying the step to the old board");
+    // C03
+    let last = step == 3;
+    assert!(ns.is_p1_turn_to_move() == (if last { !side } else { side }), "C03: side to move");
+    assert!(ns.current_step() == (if last { 0 } else { step + 1 }), "C03: step counter");
+    assert!(ns.move_number() == mn + (if last && !side { 1 } else { 0 }), "C03: move number grows exactly when Silver's turn ends");
+    let np = ns.unwrap_play_phase();
+    // C12
+    assert!(np.push_pull_state() == (if last { PushPullState::None } else { want_status }), "C12: status after the step (None at turn start)");
+    // C14
+    let rec = np.previous_piece_boards();
+    if last {
+        assert!(rec.len() == 0, "C14/C03: fresh per-turn record at turn start");
+    } else {
+        assert!(rec.len() == step + 1, "C14: one board recorded per step made");
+        let mut k = 0;
+        while k < 3 {
+            if k < step {
+                assert!(same_board(rec[k].piece_board(), &prev_copy[k]), "C14: earlier boards of the turn are kept");
+            }
+            k += 1;
+        }
+        assert!(same_board(rec[step].piece_board(), &pb), "C14: the board before this step is recorded as board `step`");
+    }
+    // C08 (difference form)
+    let ptm = if last { PLAYER_TO_MOVE } else { 0 };
+    let new_step = if last { 0 } else { step + 1 };
+    let want_hash = hash ^ ptm ^ STEP_VALUES[step] ^ STEP_VALUES[new_step] ^ pbv;
+    assert!(raw(&ns.hash) == want_hash, "C08: hash' == hash ^ side switch ^ step change ^ board delta");
+    assert!(raw(&np.initial_hash_of_move) == (if last { want_hash } else { init }), "C05/C08: turn-start hash kept within the turn, renewed at turn end");
+    // C05 h3: history bookkeeping
+    let hh = np.hash_history();
+    if last {
+        assert!(hh.len() == (if captured { 0 } else { hist_len }) + 1, "C05: history appended at turn end (after a reset if this step captured)");
+        assert!(hh.head().map(|z| raw(z)) == Some(want_hash), "C05/C08: the recorded entry is the new turn-start hash");
+        assert!(!np.piece_trapped_this_turn(), "C05: capture flag reset at turn start");
+    } else {
+        assert!(hh.len() == (if captured { 0 } else { hist_len }), "C05: mid-turn the history is unchanged, or reset exactly at a capture");
+        if !captured && hist_len > 0 {
+            assert!(hh.head().map(|z| raw(z)) == Some(hist_head), "C05: mid-turn history head unchanged");
+        }
+        assert!(np.piece_trapped_this_turn() == (trapped || captured), "C05: capture flag accumulates within the turn");
+    }
+}
+// @obl props=C02,C03,C05,C08,C10,C12,C14,C19 tier=quick kind=harness-contract mem=6 est=120 timeout=1500
+// @fns GameState::take_action GameState::move_piece PieceBoard::take_action GameState::next_piece_boards_this_move GameState::next_push_pull_state Zobrist::move_piece step_value PlayPhase::initial PlayPhase::new List::append List::clone
+// @clause step 0 of a turn. requires board_wf, status None, any Move(i,d), move_number < usize::MAX. ensures board == PieceBoard::take_action(old board) (contract c02); same side, step 1, move number same; status == next_push_pull_state(old) (contract c12); per-turn record == [old board]; hash' == hash ^ STEP[0] ^ STEP[1] ^ delta; initial hash kept; history unchanged or reset at capture; capture flag accumulated; no panic
+#[kani::proof]
+#[kani::unwind(6)]
+#[kani::stub(crate::zobrist::piece_board_value, pbv_ghost)]
+fn t_step_at_0() {
+    step_transition(0);
+}
+// @obl props=C02,C03,C05,C08,C12,C14,C19 tier=quick kind=harness-contract mem=6 est=150 timeout=1500
+// @fns GameState::take_action GameState::move_piece GameState::next_piece_boards_this_move GameState::next_push_pull_state
+// @clause step 1 (same postcondition, record of length 1 -> 2, any status)
+#[kani::proof]
+#[kani::unwind(6)]
+#[kani::stub(crate::zobrist::piece_board_value, pbv_ghost)]
+fn t_step_at_1() {
+    step_transition(1);
+}
+// @obl props=C02,C03,C05,C08,C12,C14,C19 tier=quick kind=harness-contract mem=6 est=150 timeout=1500
+// @fns GameState::take_action GameState::move_piece GameState::next_piece_boards_this_move GameState::next_push_pull_state
+// @clause step 2 (same postcondition, record of length 2 -> 3, any status)
+#[kani::proof]
+#[kani::unwind(6)]
+#[kani::stub(crate::zobrist::piece_board_value, pbv_ghost)]
+fn t_step_at_2() {
+    step_transition(2);
+}
+// @obl props=C02,C03,C05,C08,C12,C14,C19 tier=quick kind=harness-contract mem=6 est=120 timeout=1500
+// @fns GameState::take_action GameState::move_piece PlayPhase::initial List::append
+// @clause step 3 = turn end. ensures board == rule result; other side, step 0, status None, empty per-turn record, move number +1 iff Silver moved; hash' == hash ^ PLAYER_TO_MOVE ^ STEP[3] ^ STEP[0] ^ delta; initial hash == hash'; history == (captured ? [] : old) ++ [hash']; capture flag false
+#[kani::proof]
+#[kani::unwind(6)]
+#[kani::stub(crate::zobrist::piece_board_value, pbv_ghost)]
+fn t_step_at_3() {
+    step_transition(3);
+}
+// ===========================================================================
 // meta: the canary.  An `ensures` that is false on the real supported_pieces; it must FAIL.
 // If it ever passes, the pipeline is not checking anything and the whole run is UNDECIDED.
 // ===========================================================================
